@@ -347,10 +347,10 @@ class CFG:
     def facts(self, pred=None):
         return [n for n in self.nodes if n.kind == "fact" and (pred is None or pred(n))]
 
-    def guarded(self, target, fact_pred, kill_pred=None, exc=True):
+    def guarded(self, target, fact_pred, kill_pred=None, exc=True, establish=None):
         """True iff on every entry->target path a fact node satisfying
-        fact_pred is crossed and no node satisfying kill_pred follows it
-        before target."""
+        fact_pred (or any node satisfying `establish`) is crossed and no node
+        satisfying kill_pred follows it before target."""
         start = (self.entry, False)
         seen = {start}
         dq = deque([start])
@@ -363,6 +363,8 @@ class CFG:
                     continue
                 g2 = g
                 if m.kind == "fact" and fact_pred(m):
+                    g2 = True
+                elif establish is not None and m is not target and establish(m):
                     g2 = True
                 elif kill_pred is not None and m is not target and m.kind in ("stmt", "loop") and kill_pred(m):
                     g2 = False
